@@ -249,6 +249,44 @@ class C07(Prop):
             if ok:
                 cmp_vec("expectations.bra", tb2, refs_b, 1e-9 * sc_b + 1e-13, "expectations(list, self_conj=bra)")
         if is_dm:
+            # reduced density matrices of the PHYSICAL sites of a density operator in matrix-product form: the MpDm is a pure state
+            # on physical x auxiliary indices; tracing the auxiliary half and the other sites gives rho_i / rho_ij
+            dd = list(dims) + list(dims)
+            tdm = np.asarray(psi).reshape(-1)
+            tol = 1e-9 * nrm2 + 1e-13
+            orient = None
+            ent1, ent2 = {}, {}
+            ok, rdm1 = it.guard("dm.calc_1site_rdm", ket.calc_1site_rdm)
+            if ok:
+                for i in range(n):
+                    if i not in rdm1:
+                        r.fail("dm.calc_1site_rdm.keys", f"site {i} missing: {sorted(rdm1.keys())}")
+                        continue
+                    ref = partial_trace_1(tdm, dd, i)
+                    got = np.asarray(rdm1[i])
+                    if orient is None and got.shape == ref.shape and not np.allclose(ref, ref.T, atol=1e-9 * nrm2):
+                        orient = "T" if np.max(np.abs(got - ref.T)) < np.max(np.abs(got - ref)) else "N"
+                    r.check_close("dm.calc_1site_rdm", got, ref.T if orient == "T" else ref, tol,
+                                  f"density operator, physical site {i} (orientation {orient}) trace={it.trace[-5:]}")
+                    ent1[i] = vn(np.clip(np.linalg.eigvalsh((ref + ref.conj().T) / 2), 0, None)) if nrm2 > 0 else 0.0
+            if n >= 2 and D <= 16:
+                ok, rdm2 = it.guard("dm.calc_2site_rdm", ket.calc_2site_rdm)
+                if ok:
+                    for (i, j) in [(a, b) for a in range(n) for b in range(a + 1, n)]:
+                        if (i, j) not in rdm2:
+                            continue
+                        ref = partial_trace_2(tdm, dd, i, j)
+                        got = np.asarray(rdm2[(i, j)])
+                        if orient is None and got.shape == ref.shape and not np.allclose(ref, ref.T, atol=1e-9 * nrm2):
+                            orient = "T" if np.max(np.abs(got - ref.T)) < np.max(np.abs(got - ref)) else "N"
+                        r.check_close("dm.calc_2site_rdm", got, ref.T if orient == "T" else ref, tol,
+                                      f"density operator, physical sites {(i, j)} (orientation {orient})")
+                        ent2[(i, j)] = vn(np.clip(np.linalg.eigvalsh((ref + ref.conj().T) / 2), 0, None))
+            ok, e1 = it.guard("dm.calc_entropy.1site", ket.calc_entropy, "1site")
+            if ok and ent1:
+                r.check_close("dm.calc_entropy.1site", [e1.get(i, np.nan) for i in range(n)], [ent1[i] for i in range(n)], 1e-7,
+                              "1-site entropies of a density operator")
+            r.classes.append("dm.rdm")
             return r
         # ---- occupations ----------------------------------------------------------------------------------------
         kinds = [s["k"] for s in spec["sites"]]
